@@ -190,6 +190,17 @@ pub fn run(rec: &mut Rec, rng: &mut Rng, thorough: bool) {
             table_case_paths(rec, SERVER_IDS[0], prefix, &long_refs, &regs, &uris, None);
         }
     }
+    // many routes under a long prefix: neither the number of routes nor the length of the prefix is bounded
+    {
+        let many: Vec<String> = (0..260usize).map(|k| format!("/r{}", k)).collect();
+        let many_refs: Vec<&str> = many.iter().map(|x| x.as_str()).collect();
+        let long_prefix = format!("/{}", "p".repeat(299));
+        for prefix in ["/api", long_prefix.as_str()] {
+            let regs: Vec<(u8, usize)> = (0..many.len()).map(|i| (((i * 7) % 3) as u8, i)).collect();
+            let uris: Vec<Vec<u8>> = many.iter().step_by(3).map(|p| format!("{}{}", prefix, p).into_bytes()).collect();
+            table_case_paths(rec, SERVER_IDS[0], prefix, &many_refs, &regs, &uris, None);
+        }
+    }
     // random longer tables
     let n = if thorough { 20000 } else { 600 };
     for _ in 0..n {
